@@ -24,7 +24,7 @@ func atoi(s string) int { n, _ := strconv.Atoi(s); return n }
 func replayFrame(kind string, f map[string]string) (string, bool) {
 	switch kind {
 	case "ws":
-		c := &wsCase{ops: strings.Split(f["ops"], ";"), fault: atoi(f["fault"]), once: f["once"] == "1", wf: f["wf"] == "1", rdconc: atoi(f["rdconc"])}
+		c := &wsCase{ops: strings.Split(f["ops"], ";"), fault: atoi(f["fault"]), once: f["once"] == "1", wf: f["wf"] == "1", rdconc: atoi(f["rdconc"]), pre: atoi(f["pre"])}
 		return runWS(c), true
 	case "rs":
 		c := &rsCase{in: unhex(f["in"]), ops: strings.Split(f["ops"], ";"), frag: atoi(f["frag"]), fault: atoi(f["fault"]), conc: atoi(f["conc"])}
@@ -34,7 +34,7 @@ func replayFrame(kind string, f map[string]string) (string, bool) {
 		for _, s := range strings.Split(f["sizes"], ",") {
 			sizes = append(sizes, atoi(s))
 		}
-		c := &crCase{data: f["data"], opts: f["opts"], sizes: sizes, frag: atoi(f["frag"]), fault: atoi(f["fault"]), once: f["once"] == "1"}
+		c := &crCase{data: f["data"], opts: f["opts"], sizes: sizes, frag: atoi(f["frag"]), fault: atoi(f["fault"]), once: f["once"] == "1", data2: f["data2"]}
 		return runCR(c), true
 	}
 	return "", false
@@ -258,7 +258,7 @@ func compWS(o *out, seed uint64, tier string) {
 		mult = 8
 	}
 	emit := func(c *wsCase, class string) {
-		obs := iso("ws", c.fields(), 10*time.Second)
+		obs := iso("ws", c.fields(), 30*time.Second)
 		// the model runner also validates the emitted frames against the frame specification
 		sinks, acc, closed := "", "", ""
 		for _, kv := range strings.Split(obs, " ") {
@@ -344,6 +344,46 @@ func compWS(o *out, seed uint64, tier string) {
 		for conc := 1; conc <= 2; conc++ {
 			emit(&wsCase{ops: []string{fmt.Sprintf("A:bs=4,conc=%d", conc), fmt.Sprintf("RF:g:1,5,%d|0", n), "C"}, wf: true, rdconc: 1}, "readfrom-multiple-of-blocksize")
 		}
+	}
+	// 2b. edge values of every option, alone and after a valid option, followed by writes, and by a
+	//     Reset and a second frame: a rejected option must leave no trace, an accepted one must mean
+	//     what the reference machine says (concurrency 0 and negative = GOMAXPROCS)
+	for _, edge := range []string{"conc=0", "conc=16", "conc=0,bc=1", "bsraw=8388608", "bsraw=0", "bsraw=65535", "bsraw=12345", "bsraw=4194305",
+		"lvl=1", "lvl=3", "lvl=300", "lvl=100000", "lvl=262144", "lvl=1024,bsraw=12345", "bc=1,lvl=7", "sz=5,lvl=5"} {
+		for _, pre := range []string{"", "A:bs=4,lvl=1024"} {
+			var ops []string
+			if pre != "" {
+				ops = append(ops, pre)
+			}
+			// (text-like data of moderate size: the HC model is followed through the extracted code)
+			ops = append(ops, "A:"+edge, "W:g:3,9,9000", "F", "W:h:68656c6c6f", "C", "R", "W:g:3,9,9000", "C")
+			emit(&wsCase{ops: ops, wf: false, rdconc: 1}, "option-edge-values")
+		}
+	}
+	// 2e. ReadFrom (the io.Copy path) with a sink failing at every call, for good and once, modern
+	//     and legacy (no end mark: only the failing call itself can report), input not a multiple of
+	//     the block size so that the last block is written by ReadFrom's end-of-input branch
+	for _, leg := range []int{0, 1} {
+		for k := 1; k <= 7; k++ {
+			for _, once := range []bool{false, true} {
+				ops := []string{fmt.Sprintf("A:bs=4,leg=%d,cc=0", leg), "RF:g:1,5,70000|0", "C"}
+				emit(&wsCase{ops: ops, fault: k, once: once, wf: false, rdconc: 1}, "readfrom-sink-fault")
+			}
+		}
+	}
+	// 2c. the package pools have a history: other objects failed or were abandoned just before
+	for pre := 1; pre <= 3; pre++ {
+		for _, conc := range []int{1, 2} {
+			// (moderate sizes: every byte also goes through the extracted models)
+			ops := []string{fmt.Sprintf("A:bs=4,conc=%d,bc=1", conc), "W:g:1,3,66000", "F", "W:g:0,8,3000", "C", "R", "RF:g:1,5,66000|0", "C"}
+			emit(&wsCase{ops: ops, wf: true, rdconc: 1, pre: pre}, "pool-history")
+		}
+	}
+	// 2d. a frame, Close, Reset onto a sink that fails from some call on, then several calls: every
+	//     one of them reports what a new Writer would report
+	for k := 1; k <= 8; k++ {
+		ops := []string{"A:bs=4", "W:g:1,3,70000", "C", "R", "W:g:1,3,70000", "W:h:68656c6c6f", "F", "W:g:1,7,66000", "C"}
+		emit(&wsCase{ops: ops, fault: 4 + k, once: false, wf: false, rdconc: 1}, "reset-onto-failing-sink")
 	}
 	// 3. reuse and misuse: all sequences up to length L over a small alphabet (C17), both modes
 	alpha := []string{"A:bc=1", "A:bs=5", "W:h:68656c6c6f", "W:g:1,3,70000", "RF:h:776f726c64|0", "F", "C", "R"}
@@ -455,7 +495,7 @@ func compRS(o *out, seed uint64, tier string) {
 		mult = 8
 	}
 	emit := func(c *rsCase, cls string, want []byte, class string) {
-		obs := iso("rs", c.fieldsO(cls, want), 10*time.Second)
+		obs := iso("rs", c.fieldsO(cls, want), 30*time.Second)
 		ifin, icons, iout := "", "", ""
 		for _, kv := range strings.Split(obs, " ") {
 			switch {
@@ -746,6 +786,39 @@ func compRS(o *out, seed uint64, tier string) {
 			emit(&rsCase{in: a.f, ops: ops, conc: 1}, "valid", b.data, "reuse-after-complete-frame")
 		}
 	}
+	// reuse onto a source that is NOT a frame, or a truncated one: every following call reports what a
+	// new Reader would report (the error again, not the previous session's end of stream)
+	for i := 0; i < 6*mult; i++ {
+		a, b := frames[r.intn(len(frames))], frames[r.intn(len(frames))]
+		if len(a.f) > 200000 || len(b.f) > 200000 || a.o.leg == 1 || b.o.leg == 1 || len(b.f) < 12 {
+			continue
+		}
+		bad := [][]byte{r.bytes(40), b.f[:len(b.f)/2], b.f[:5], append([]byte{1, 2, 3, 4}, b.f...)}[i%4]
+		rs := "RS:h:" + hx(bad)
+		for _, ops := range [][]string{{"WT", rs, "R:10", "R:10", "WT", "R:10"}, {"RA:100", rs, "RA:4096", "R:10", "S", "R:10"}} {
+			emit(&rsCase{in: a.f, ops: ops, conc: 1}, "life", a.data, "reuse-onto-bad-source")
+		}
+	}
+	// reuse onto a TRUNCATED legacy frame whose first block's stored size equals the number of bytes
+	// the previous session delivered: a byte counter that survives Reset would take the size word
+	// for the kernel trailer and end the stream cleanly
+	for i := 0; i < 4*mult; i++ {
+		b := genData(0, 900+i, 30+r.intn(900))
+		z := make([]byte, lz4.CompressBlockBound(len(b)))
+		k, _ := lz4.CompressBlock(b, z, nil)
+		if k <= 0 {
+			continue
+		}
+		first := makeFrame(fopt{bs: 4, bc: 0, cc: 1, lvl: 0, conc: 1, leg: 0, size: -1}, genData(1, i, k))
+		leg := makeFrame(fopt{bs: 4, bc: 0, cc: 0, lvl: 0, conc: 1, leg: 1, size: -1}, b)
+		if len(leg) < 12 {
+			continue
+		}
+		cut := leg[:8+r.intn(len(leg)-9)] // magic + size word + a strict part of the block
+		for _, ops := range [][]string{{"RA:4096", "RS:h:" + hx(cut), "RA:4096"}, {"RA:100", "RS:h:" + hx(cut), "WT"}} {
+			emit(&rsCase{in: first, ops: ops, conc: 1}, "life", nil, "reuse-onto-truncated-legacy-frame")
+		}
+	}
 	// lifecycle: all sequences up to length L over the Reader's operations (C17)
 	alpha := []string{"R:10", "R:0", "R:70000", "WT", "S", "A:conc=2", "RS:h:" + hx(frames[1].f)}
 	L := 3
@@ -844,6 +917,23 @@ func compCR(o *out, seed uint64, tier string) {
 			c2.frag = 0
 			o.emit("cr", c2.fields()+" iout=-", iso("cr", c2.fields(), 30*time.Second), true)
 			o.count("source-fault")
+		}
+		if i%8 == 2 || i%8 == 6 {
+			// reuse after a clean end, after a source failure (also on the very first source call,
+			// when only the header has been staged), after reads abandoned half-way
+			c2 := *c
+			c2.frag = 0
+			c2.data2 = fmt.Sprintf("g:%d,%d,%d", r.intn(4), r.intn(500), []int{0, 5, 1000, 70000}[r.intn(4)])
+			switch r.intn(3) {
+			case 0:
+				c2.fault = 1 + r.intn(3)
+			case 1:
+				c2.sizes = []int{7, 3}
+			default:
+				c2.sizes = []int{4 << 20, 4 << 20, 4 << 20, 100, 100} // read to the clean end
+			}
+			o.emit("cr", c2.fields()+" iout=-", iso("cr", c2.fields(), 30*time.Second), true)
+			o.count("reset-and-reuse")
 		}
 		if i%8 == 4 {
 			// a source that fragments its reads and fails in the MIDDLE of a block, for good or once
